@@ -138,11 +138,30 @@ def register(props):
                         "it is usable once that namespace is applied, exactly like a scope built in code; UnserializeSchema "
                         "rejects such references",
                         "CallStep does not apply to a schema read from the wire (it has no handlers)"],
-        "level_text": "Theorem C10_total (Properties/C10.v) over Schema/Describe.v: for EVERY value d, rebuild d and rebuild_plugin d "
-                      "are an error or a schema satisfying c10_wf (roots present and consistent, every self-namespace reference "
-                      "resolves lexically, one-of members agree with the inline flag, defaults decode) — never Panic, never "
-                      "OutOfFuel; the pre-fix loader is refuted by witnesses.",
-        "level_note": "Model = Schema/Describe.v (parse + link); tie = family c10mutants: the model's verdict rejected / usable / "
-                      "pending is compared with the SDK on every mutant.",
+        "level_text": "Theorems (Properties/C10.v) over Schema/Describe.v and Schema/Ops.v. (1) C10_total / C10_total_plugin: for EVERY "
+                      "value d, rebuild d and rebuild_plugin d are an error or a schema satisfying c10_wf - never Panic, never "
+                      "OutOfFuel; the pre-fix loader is refuted by witnesses. (2) C10_usable / C10_usable_plugin (C10 composed with "
+                      "C04): if the loader returns a schema then Unserialize, Validate, Serialize and data-mode ValidateCompatibility "
+                      "on it (for UnserializeSchema / ReadSchema: on every step input, output and signal data schema) never Panic, for "
+                      "EVERY Go value of the model's universe and every fuel, with no further hypothesis; and under the two boolean "
+                      "known-finding classes of C04 (no_inline_cycle D11, defaults_total K D50) never OutOfFuel from the explicit "
+                      "fuel_bound on. The link is proved, not assumed: C10_shape (distinct keys of every map, map key kinds, one-of "
+                      "key / member kinds, scopes hold objects - by construction of parse), C10_link (c10_wf + shape + no foreign "
+                      "reference => wf_use), C10_wf_relation (wf_schema <-> wf_use and ids_ok), and C04's totality re-established under "
+                      "wf_use (C04_total_use, C04_never_panics_use). Refuted where a hypothesis is dropped: "
+                      "C10_inline_cycle_refuted (D11) and C10_default_cycle_refuted (D50) are reachable through the loader; "
+                      "C10_scope_foreign_ref_refuted (UnserializeScope, unlike UnserializeSchema, returns references into another "
+                      "namespace unlinked: C10_usable carries foreign_refs s = false, C10_usable_plugin does not need it); "
+                      "C10_wf_schema_not_established (the loader checks id = key for the root object only). (3) "
+                      "C10_usable_applied_namespaces: a scope returned by UnserializeScope with references into other namespaces "
+                      "is usable in the same sense in EVERY environment in which those namespaces are applied, are themselves "
+                      "wf_use, and every foreign reference resolves to an object and, where it is a one-of member, passes the member "
+                      "check of ApplyNamespace (ext_ok; C10_foreign_member_accepted shows the loader cannot check it).",
+        "level_note": "Model = Schema/Describe.v (parse + link) and Schema/Ops.v (map-based objects; a schema read from the wire is "
+                      "always map-based); tie = family c10mutants: the model's verdict rejected / usable / pending is compared with "
+                      "the SDK on every mutant and every operation is run on whatever is returned. Partial: termination is proved "
+                      "only outside the classes D11 / D50 (open known findings of C04, fatal stack overflow in Go); ApplyNamespace itself is "
+                      "not modelled as an operation on a rebuilt scope: C10_usable_applied_namespaces is stated over the resolution "
+                      "environment (e_ext) that Schema/Ops.v uses for applied namespaces.",
         "design_ref": "DESIGN.md §5 C10",
     }
